@@ -81,6 +81,9 @@ HAZ = {
     'nested_loop_prologue_outer': (['cp', 'cpu'], 'constprop:inner-loop-assignment-visible-before-it-in-outer-body'),
     'int_div_neg': (['cp', 'cpu'], 'constprop:integer-division-folding'),
     'array_const_elems': (['cp', 'cpu'], 'constprop:saved-array-initialiser-taken-as-constant'),
+    'elseif_true_body_starts_with_if': (['dce0', 'dce1'], 'deadcode:taken-else-if-branch-starting-with-inline-if-kept-as-else-if'),
+    'elseif_true_body_starts_with_block_if': (['dce0', 'dce1'], 'deadcode:taken-else-if-branch-starting-with-if-kept-as-else-if'),
+    'elseif_false_else_starts_with_if': (['dce0', 'dce1'], 'deadcode:else-branch-starting-with-if-after-pruned-else-if-kept-as-else-if'),
     'named_if_exit': (['dce0', 'dce1'], 'deadcode:exit-from-named-if-construct-left-behind'),
     'select_literal_range': (['dce0', 'dce1'], 'deadcode:select-case-literal-selector-range'),
     'select_logical': (['dce0', 'dce1'], 'deadcode:select-case-logical-selector'),
